@@ -18,7 +18,7 @@ ASSUMPTIONS = [
 ]
 
 PROFILE = scenario.profile(
-    out_spellings=("float", "float", "np", "arr1", "arr11", "arr0", "np32"),
+    out_spellings=("float", "float", "np", "arr1", "arr11", "arr0", "np32", "u64", "i32"),
     maxD=3, noise_modes=("none",), extra_budget=(0, 70),
     target_kinds=("quad", "quad", "l1", "maxn", "plateau", "plateau", "rosen", "linear"),
     c_classes=("inside", "inside", "hardbox", "on_bound", "outside", "far", "at_x0", "at_x0"),
